@@ -606,6 +606,12 @@ fn dir_a(c: &mut Ctx, r: &mut Rng, forced: Option<Ver>, idx: u64) {
         let (o, oe) = refimpl::alg9(rev, &owner_b, &cfg.file_key, &d.o[32..48], &u);
         if u != d.u || ue != d.ue { c.oracle_fail("U-differs", "U / UE differ from Algorithm 8", case.clone()); }
         if o != d.o || oe != d.oe { c.oracle_fail("O-differs", "O / OE differ from Algorithm 9", case.clone()); }
+        // Perms: Algorithm 10 with the random tail read off lopdf's (decrypted) block; Algorithm 13 on lopdf's value
+        if d.perms.len() == 16 {
+            let plain = refimpl::aes_dec_block(&cfg.file_key, &d.perms);
+            if refimpl::alg10(p, d.encrypt_metadata, &cfg.file_key, &plain[12..16]) != d.perms { c.oracle_fail("perms-differs", "Perms differs from Algorithm 10", case.clone()); }
+            c.corr(format!("c6_perms {} {} {} {}", p as u32, d.encrypt_metadata as u8, hex_tok(&cfg.file_key), hex_tok(&plain[12..16])), format!("ok {}", hex_tok(&d.perms)));
+        } else { c.oracle_fail("perms-differs", "Perms is not 16 bytes", case.clone()); }
         // Lean spec: R5 always, R6 (full Algorithm 2.B in Lean, slow) on a few cases
         if rev == 5 || idx < 40 && idx % 2 == 0 || !c.quick() && idx % 8 == 0 {
             c.corr(format!("c6_dict6 {} {} {} {} {} {}", rev, hex_tok(&cfg.file_key), hex_tok(&owner_b), hex_tok(&user_b), hex_tok(&d.u[32..48]), hex_tok(&d.o[32..48])),
@@ -639,9 +645,9 @@ fn dir_a(c: &mut Ctx, r: &mut Rng, forced: Option<Ver>, idx: u64) {
         if refimpl::encrypt_data(m, state.file_encryption_key(), *id, &iv, &pt) != ct { c.oracle_fail("ciphertext-differs", "ciphertext differs from Algorithm 1 / 1.A", json!({"id": format!("{:?}", id), "case": case})); }
         budget -= 1;
     }
-    // whole document: the reference opens lopdf's output with both passwords (Algorithm 13 apart: F-C06-c, witness)
+    // whole document: the reference opens lopdf's output with both passwords, Algorithm 13 included
     for (who, pw, want_owner) in [("user", &user_b, false), ("owner", &owner_b, true)] {
-        match refimpl::decrypt_document(&enc, pw, true, true) {
+        match refimpl::decrypt_document(&enc, pw, true, false) {
             Ok((dd, is_owner)) => {
                 if let Err(w) = c05::docs_same_mod_length(&orig, &dd) { c.oracle_fail("reference-decrypt-differs", &format!("{} password: {}", who, w), case.clone()); }
                 else { c.count(&format!("a.ref_decrypt_ok.{}", who)); }
@@ -650,7 +656,7 @@ fn dir_a(c: &mut Ctx, r: &mut Rng, forced: Option<Ver>, idx: u64) {
             Err(w) => c.oracle_fail("reference-rejects", &format!("{} password: {}", who, w), case.clone()),
         }
     }
-    if refimpl::authenticate(&d, &id0, b"certainly not the password", true).is_some() { c.oracle_fail("reference-accepts-wrong", "", case.clone()); }
+    if refimpl::authenticate(&d, &id0, b"certainly not the password", false).is_some() { c.oracle_fail("reference-accepts-wrong", "", case.clone()); }
     c.sample(json!({"direction": "A", "rev": rev, "objects": orig.objects.len()}));
 }
 
@@ -675,8 +681,6 @@ fn gen_params_b(r: &mut Rng, idx: u64) -> (refimpl::EncParams, String, String) {
     loop {
         user = c05::gen_password(r, r6); owner = c05::gen_password(r, r6);
         if owner.is_empty() || owner == user { owner = format!("{}#o", user); }
-        // an empty user password on R5/R6 makes load_mem itself fail (F-C06-c): witnessed separately
-        if r6 && user.is_empty() { user = "u".into(); }
         if !r6 && !(user.is_ascii() && owner.is_ascii()) { continue; }
         if user.len() > 127 || owner.len() > 127 { continue; }
         break;
@@ -717,7 +721,7 @@ fn dir_b(c: &mut Ctx, r: &mut Rng, idx: u64) {
     if !au { c.oracle_fail("lopdf-rejects-user", "authenticate_user_password rejects the user password of a reference-encrypted document", case.clone()); }
     if !ao { c.oracle_fail("lopdf-rejects-owner", "authenticate_owner_password rejects the owner password of a reference-encrypted document", case.clone()); }
     if enc.authenticate_password("definitely wrong").is_ok() { c.oracle_fail("lopdf-accepts-wrong", "", case.clone()); }
-    // decryption; R<=4 owner = F-C05-a territory, R>=5 user = F-C06-c territory (Perms check on ciphertext): counted, witnessed separately
+    // decryption; R<=4 owner = F-C05-a territory: correspondence only, witnessed separately
     if q.r <= 4 {
         match run(c, &enc, &user, "user") {
             Ok(dd) => if let Err(w) = c05::docs_same_mod_length(&orig, &dd) { c.oracle_fail("lopdf-decrypt-differs", &w, case.clone()); } else { c.count("b.lopdf_decrypt_ok.user"); },
@@ -729,7 +733,10 @@ fn dir_b(c: &mut Ctx, r: &mut Rng, idx: u64) {
             Ok(dd) => if let Err(w) = c05::docs_same_mod_length(&orig, &dd) { c.oracle_fail("lopdf-decrypt-differs", &w, case.clone()); } else { c.count("b.lopdf_decrypt_ok.owner"); },
             Err(cls) => c.oracle_fail("lopdf-decrypt-fails", &cls, case.clone()),
         }
-        match run(c, &enc, &user, "user") { Ok(_) => c.count("b.r56_user_ok_unexpected"), Err(_) => c.count("b.r56_user_rejected_known") }
+        match run(c, &enc, &user, "user") {
+            Ok(dd) => if let Err(w) = c05::docs_same_mod_length(&orig, &dd) { c.oracle_fail("lopdf-decrypt-differs", &w, case.clone()); } else { c.count("b.lopdf_decrypt_ok.user_r56"); },
+            Err(cls) => c.oracle_fail("lopdf-decrypt-fails", &format!("user password, R{}: {}", q.r, cls), case.clone()),
+        }
     }
     if key != (if q.r <= 4 { refimpl::alg2(&q.user, &d.o, q.p, &refimpl::file_id0(&orig), q.r, d.key_bytes(), q.encrypt_metadata) } else { q.file_key.clone() }) { c.oracle_fail("reference-key", "", case.clone()); }
     // through a file: lopdf's writer carries the reference-encrypted objects, lopdf's loader reads them back
@@ -738,7 +745,7 @@ fn dir_b(c: &mut Ctx, r: &mut Rng, idx: u64) {
         if matches!(guard(|| tosave.save_to(&mut bytes)), Ok(Ok(()))) {
             match guard(|| Document::load_mem(&bytes)) {
                 Ok(Ok(mut loaded)) => {
-                    let pw = if q.r <= 4 { &user } else { &owner };
+                    let pw = if q.r <= 4 || idx % 4 == 0 { &user } else { &owner };
                     let ok = !loaded.is_encrypted() || loaded.decrypt(pw).is_ok();
                     if !ok { c.oracle_fail("file-decrypt-fails", "decrypt after load_mem failed", case.clone()); }
                     else {
@@ -810,7 +817,8 @@ fn witnesses(c: &mut Ctx) {
         let mut bytes = vec![]; let mut ts = enc0.clone(); let _ = ts.save_to(&mut bytes);
         let load = Document::load_mem(&bytes);
         let load_fails = load.is_err();
-        c.witness("F-C06-c", auth && user.is_err() && owner_ok && plain && strict && load_fails,
+        // fixed in /repo ca6bb9d: reproduced = any of the symptoms is back
+        c.witness("F-C06-c", (auth && user.is_err()) || plain || strict || load_fails || !owner_ok,
             &format!("conforming R6 document: authenticate_user_password ok={}, decrypt(\"user\") = {:?}, decrypt(\"owner\") restores={}; Perms written by lopdf is the unencrypted block (bytes 9..12 = \"adb\")={}; strict reference (Algorithm 13) rejects lopdf's output={}; load_mem of a conforming R6 file with an empty user password fails={}", auth, user.err().map(|e| c05::err_class(&e)), owner_ok, plain, strict, load_fails));
     }
     // F-C06-b: StrF / StmF = /Identity (predefined, not listed in CF) is treated as RC4
@@ -846,14 +854,15 @@ fn witnesses(c: &mut Ctx) {
         let _ = d;
         c.witness("F-C06-e", differs && open, &format!("V2/R3, owner=\"\", user=\"secret\": O differs from Algorithm 3 with absent owner={}, the reference opens the document with the empty password (as owner)={}", differs, open));
     }
-    // F-C06-f: P is re-normalised before Algorithm 2
+    // note (not a finding: P = -1 is outside the quantifier "conforming permission words"): P is re-normalised before Algorithm 2
     if let Some(_r) = c.case("witness", 5) {
         let orig = strip_note(&wdoc()); let mut q = wparams(2, 3); q.p = -1;
         let (enc, _, _) = refimpl::encrypt_document(&orig, &q, &mut rnd);
         let au = enc.authenticate_user_password("user").is_ok();
         let mut q2 = wparams(2, 3); q2.p = -4; let (enc2, _, _) = refimpl::encrypt_document(&orig, &q2, &mut rnd);
         let au2 = enc2.authenticate_user_password("user").is_ok();
-        c.witness("F-C06-f", !au && au2, &format!("V2/R3 reference document with P = -1: authenticate_user_password(\"user\") ok={}; same with P = -4 (what lopdf normalises -1 to) ok={}", au, au2));
+        c.notes.push(format!("V2/R3 reference document with P = -1: authenticate_user_password(\"user\") ok={}; same with P = -4 (what lopdf normalises -1 to) ok={}", au, au2));
+        c.count(if !au && au2 { "note.nonconforming_P_renormalised" } else { "note.nonconforming_P_ok" });
     }
     // F-C06-g: Encrypt as a direct dictionary in the trailer
     if let Some(_r) = c.case("witness", 6) {
